@@ -7,6 +7,7 @@ import (
 	"os"
 	"path/filepath"
 	"regexp"
+	"runtime"
 	"sort"
 	"strings"
 
@@ -349,11 +350,34 @@ func (e *env) execute(cx *mc.Ctx) (sched.Result, []verdict) {
 
 // yieldAtFileOps makes every os file operation of the audit writers a
 // scheduling point (the vos shim consults the hook before each operation).
+//
+// A write issued from inside log.Logger happens under the logger's own (real,
+// standard-library) mutex: handing the turn to another thread there would let
+// that thread block on a lock the scheduler does not model, so such a write is
+// not a scheduling point (the logger call itself is one, through the vlog shim).
 func yieldAtFileOps(op, name string) (error, bool) {
 	if s := vrt.Scheduler; s != nil {
+		if op == "write" && underStdLogger() {
+			return nil, false
+		}
 		s.Yield("os." + op)
 	}
 	return nil, false
+}
+
+func underStdLogger() bool {
+	pcs := make([]uintptr, 32)
+	n := runtime.Callers(3, pcs)
+	frames := runtime.CallersFrames(pcs[:n])
+	for {
+		fr, more := frames.Next()
+		if strings.HasPrefix(fr.Function, "log.(*Logger).") {
+			return true
+		}
+		if !more {
+			return false
+		}
+	}
 }
 
 // ---- self test -------------------------------------------------------------
@@ -433,6 +457,13 @@ func runSchedules(c *runner.Ctx) {
 	if c.Thorough() {
 		bound = 3
 	}
+	loggerPoints := int64(0)
+	defer func() {
+		c.Count("scheduling_points_at_logger_calls", loggerPoints)
+		if loggerPoints == 0 {
+			c.Note("worker %d: no scheduling point was met at a log.Logger call of internal/auditlog (the vlog shim does not cover the method the writers use): logger calls were atomic with the code before them in this run", c.Worker)
+		}
+	}()
 	for si, sc := range schedScenarios {
 		e, err := newEnv(sc, filepath.Join(c.Work, fmt.Sprintf("s%d", si)))
 		if err != nil {
@@ -449,6 +480,11 @@ func runSchedules(c *runner.Ctx) {
 			c.Count("traces_validated_against_impl", 1)
 			c.Count("transitions", int64(res.Steps))
 			c.Count("states", int64(len(cx.Points)))
+			for _, p := range cx.Points {
+				if strings.HasPrefix(p.Label, "log.") {
+					loggerPoints++
+				}
+			}
 			k := scenario{Sched: &schedCase{si, ch}}
 			report := func(sig, text string) {
 				c.Violation(sig, fmt.Sprintf("scenario %q, schedule %s\n%s", sc.name, strings.Join(res.Trace, " "), text), k)
